@@ -61,6 +61,17 @@ func runC09(c *kit.Ctx) {
 	c09Store(c, a)
 	c09Wiring(c, a)
 	c09Listing(c, a)
+	// R8 (added after seed C09-c): the key the authorizer verifies with is the key the
+	// store persisted
+	{
+		m := newStoreModel(c)
+		r8 := c.Rule("R8", "the persisted signing key is the key in use", 1)
+		if kf := findKeyField(m); kf != nil {
+			checkPersistedKeyInUse(c, m, kf, r8)
+		} else {
+			r8.Ob(nil, nil, "key field", "exists").Undecided("field caching meta.jwt_key not found")
+		}
+	}
 }
 
 // ---------------------------------------------------------------------------
